@@ -113,12 +113,35 @@ pub fn meta(prop: &str, thorough: bool) -> Meta {
         "C14" => c14::meta(thorough),
         "C15" => c15::meta(thorough),
         "C16" => c16::meta(thorough),
+        "C17" => (
+            "E2: state = fork() snapshot of the real process after a history of calls; transition = one more apply() call from a 120-call alphabet (40 rules x 3 data covering every operator family, with size-dependent 'big' variants); every call compared with its outcome as the first call in a fresh snapshot (value, Err-ness, log lines, inputs intact); all histories up to depth 2 (3 thorough). E3: state = position of every thread in its sequence of hook points; transition = one scheduling decision at a hook point; stateless DFS with preemption bound 0,1,(2,3) over ~180 two- and three-thread harnesses on shared Arc<Value> inputs; every complete schedule compared with the isolated outcomes; non-trivial = every history / schedule; distinct = distinct history / schedule".into(),
+            json!({"history_depth": if thorough { 3 } else { 2 }, "history_alphabet": 120, "preemption_bounds": if thorough { "pairs 2, hand-picked 3, deep chains 1" } else { "pairs 1, hand-picked 2, deep chains 1" }, "hook_points": ["Parsed::from_value", "Parsed::evaluate", "Operator::execute", "LazyOperator::execute", "DataOperator::execute", "log"]}),
+        ),
+        "C18" => (
+            "choice tree: binary (debug; thorough also release) -> rule text -> data text -> delivery form (argument / argument + junk on stdin / stdin without argument / stdin with '-'); deep nesting around the parser limit; large documents; chains r1 -> r2 over the valid texts; leaf = one run of the real binary whose stdout and exit status are compared with the library in-process; non-trivial = every run; distinct = distinct (argv, stdin)".into(),
+            json!({"rule_texts": crate::boundary::rule_texts(thorough).len(), "data_texts": crate::boundary::data_texts(thorough).len(), "forms": 4}),
+        ),
+        "C19" => (
+            "choice tree: extension build (debug; thorough also release) -> rule object -> data object -> entry point and optional-argument combination (17 call forms) + malformed texts + broken serializers; leaf = one call of the real package compared type-strictly with the library reached through the harness oracle, or ValueError; plus E2 at the wrapper level: DFS over sequences of calls from a 47-call alphabet whose states are os.fork() snapshots of the interpreter; non-trivial = every call; distinct = distinct call description".into(),
+            json!({"rules": 62, "datas": 26, "call_forms": 17, "history_depth": if thorough { 3 } else { 2 }}),
+        ),
         _ => (String::new(), json!({})),
+    };
+    let rule = if ["C17", "C18", "C19"].contains(&prop) {
+        rule
+    } else {
+        format!("{} Additional enumerated sub-spaces (counts per sub-space are in coverage.subspaces): size probes - position-sensitive patterns at operand / collection / string / path lengths {:?} (complete over the stated patterns, not over all inputs of those lengths); for C04 the composition of every operator inside every operand position of every operator.", rule, crate::alphabet::size_classes(thorough))
     };
     Meta {
         rule,
         bounds,
-        engines: json!(["E1 term explorer over the real apply(), diff against reference model R + oracle-free laws"]),
+        engines: match prop {
+            "C17" => json!(["E2 history explorer: explicit-state DFS, states are fork() snapshots of the real process", "E3 schedule explorer: preemption-bounded stateless DFS over real threads at verif_hooks points", "proviso (thorough): free-running thread bodies under miri's data-race detector"]),
+            "C18" => json!(["E4 boundary explorer: the real jsonlogic binary built from the working tree, oracle = library in-process"]),
+            "C19" => json!(["E4 boundary explorer: the real Python package built from the working tree, oracle = library through `jlmc oracle`", "E2 at the wrapper level: os.fork() snapshots of the interpreter"]),
+            "C01" => json!(["E1 term explorer (totality only) in several build profiles, isolated workers with crash / hang localisation", "E4 boundary explorers (CLI, Python)"]),
+            _ => json!(["E1 term explorer over the real apply(), diff against reference model R + oracle-free laws"]),
+        },
         assumptions: common_assumptions(),
     }
 }
